@@ -32,7 +32,8 @@ CHECK_DEADLOCK FALSE
 """
 SLOW = {"setann": "slow_setann", "setann_inplace": "slow_inplace", "plain": "slow_plain", "oneway_setann": "oneway_slow",
         "oneway_inplace": "oneway_slow_inplace"}
-SETS = {"slow_setann", "slow_inplace", "oneway_slow", "oneway_slow_inplace", "setann", "setann_inplace", "setann_raise", "batch_setann", "batch_raise", "getattr_setann", "stream_setann", "oneway_setann", "oneway_inplace"}
+INNER = {"uri": None}       # an object in a second daemon that methods of the target call
+SETS = {"nested_setann", "slow_setann", "slow_inplace", "oneway_slow", "oneway_slow_inplace", "setann", "setann_inplace", "setann_raise", "batch_setann", "batch_raise", "getattr_setann", "stream_setann", "oneway_setann", "oneway_inplace"}
 
 
 def akey(tok):
@@ -85,6 +86,15 @@ def make_target(lab):
 
         def plain(self, tok):
             snap(tok)
+            return tok
+
+        def nested_setann(self, tok):
+            # sets its own annotation, then - before it returns - calls an object of another daemon, whose method sets one too
+            # (for the reply to *that* call)
+            snap(tok)
+            cc.response_annotations = {akey(tok): b"v"}
+            with P.Proxy(INNER["uri"]) as q:
+                q.mark(tok + 500)
             return tok
 
         def mutate_reqann(self, tok):
@@ -183,7 +193,7 @@ def request_bytes(kind, tok, seq, ser):
             if tok % 2:
                 ann.clear()         # every other time the request itself carries no annotations
             return inv(kind, [tok])
-        if kind in ("setann", "setann_inplace", "setann_raise", "plain", "slow_setann", "slow_inplace", "slow_plain"):
+        if kind in ("setann", "setann_inplace", "setann_raise", "plain", "slow_setann", "slow_inplace", "slow_plain", "nested_setann"):
             return inv(kind, [tok])
         if kind == "plain_noann":
             ann.clear()
@@ -231,6 +241,21 @@ def run_scripts(scripts, mode, seed, concurrent=False):
 
     def main():
         sc = S.CUR
+        inner = None
+        if any(st["kind"] == "nested_setann" for script, _ in scripts for st in script):
+            # a second daemon (thread-pool server) with an object whose method sets a response annotation for its own reply
+            import Pyro5.api as P2
+            from Pyro5 import config as _config
+            from Pyro5.callcontext import current_context as _cc
+            _config.SERVERTYPE = "thread"
+
+            class Inner(object):
+                def mark(self, tok):
+                    _cc.response_annotations = {akey(tok): b"v"}
+                    return tok
+            d2 = P2.Daemon(host="127.0.0.1")
+            INNER["uri"] = d2.register(P2.expose(Inner)(), "inner")
+            inner = (d2, memnet.ServerDriver(d2))
         lab = L.Lab(servertype=servertype, poolsize=1 if mode == "thread1" else 3)
         lab.daemon_annotations = {"DDDD": b"d"}
         lab.annotations_stored = True       # the daemon's hook returns the same dict object every time
@@ -341,6 +366,9 @@ def run_scripts(scripts, mode, seed, concurrent=False):
                 lab.annotations_stored = True
                 lab.daemon.register(make_target(lab)(), "target")
         lab.close()
+        if inner is not None:
+            inner[1].shutdown()
+            inner[0].close()
     if concurrent:
         res, sc = memnet.run(main, chooser=S.RandomChooser(random.Random(seed * 7919 + 12)), max_steps=40000000)
     else:
@@ -458,6 +486,11 @@ def run(ctx):
         js = [(s, sers[(i + mi) % 4]) for i, s in enumerate(conc)]
         traces += run_scripts(js, mode, ctx.seed, concurrent=True)
         metas += [{"script": s, "ser": ser, "mode": mode, "concurrent": True} for s, ser in js]
+    # a method that makes a Pyro call of its own before it returns (its own family of runs: what it shows is a known finding)
+    for mode in ("multiplex", "thread1", "thread3"):
+        js = [([{"c": 1, "kind": "nested_setann"}], ser) for ser in sers]
+        traces += run_scripts(js, mode, ctx.seed)
+        metas += [{"script": s, "ser": ser, "mode": mode, "nested": True} for s, ser in js]
     pj = [(s, sers[i % 4]) for i, s in enumerate(scripts)]
     traces += run_proxy_scripts(pj)
     metas += [{"script": s, "ser": ser, "mode": "proxy"} for s, ser in pj]
@@ -472,7 +505,8 @@ def run(ctx):
             v = v or "C12.Hang"
         if v:
             kinds = [s["kind"] for s in m["script"]]
-            ctx.violation("%s [mode=%s%s]" % (v, m["mode"], " concurrent" if m.get("concurrent") else ""), {"scenario": m, "kinds": kinds, "trace": tr})
+            ctx.violation("%s [mode=%s%s%s]" % (v, m["mode"], " concurrent" if m.get("concurrent") else "", " nested-call" if m.get("nested") else ""),
+                          {"scenario": m, "kinds": kinds, "trace": tr})
     if not ctx.violations and nann < 100:
         raise util.MachineryError("vacuity: only %d replies carried a method annotation" % nann)
     ctx.extra["replies_with_method_annotation"] = nann
